@@ -44,7 +44,7 @@ Definition chk (prop fam : bytes) (c o : value) : bool :=
   else if beq prop (B "C12") then (if beq fam (B "proxy") then chk_C12 c o else true)
   else if beq prop (B "C13") then (if beq fam (B "proxy") then chk_C13 c o else true)
   else if beq prop (B "C10") then (if beq fam (B "lifed") then chk_C10_lifed c o else if beq fam (B "life") then chk_C10_life c o
-                                        else if beq fam (B "proxy") then chk_C11 c o else true)
+                                        else if beq fam (B "proxy") then chk_C11 c o else if beq fam (B "tls") then chk_C20 c o else true)
   else if beq prop (B "C11") then (if beq fam (B "fs") then chk_C11_fs c o else chk_C11 c o)
   else if beq prop (B "C20") then (if beq fam (B "tls") then chk_C20 c o else true)
   else if beq prop (B "C15") then (if beq fam (B "slot") then chk_C15 c o else if beq fam (B "slotm") then chk_C15m c o else true)
